@@ -61,7 +61,7 @@ Section Transform.
   Definition tr_setup (s : setup) : setup :=
     {| s_tk := t'; s_files := map (map tr_rec) (s_files s); s_tab := map tr_row (s_tab s);
        s_cont := s_cont s; s_period := s_period s; s_dtdx := s_dtdx s; s_lo := s_lo s; s_hi := s_hi s;
-       s_life := s_life s; s_cfac := s_cfac s |}.
+       s_life := s_life s; s_cfac := s_cfac s; s_land := s_land s |}.
 
   (** the simulated window is kept *)
   Lemma P_win x : in_window t' (phi x) = in_window t x.
